@@ -75,7 +75,7 @@ def run(tier, seed, jobs):
                  ["one client session; mailboxes INBOX(3), a, a/b (+ the five SPECIAL-USE mailboxes in the run() plan); pack threshold 3",
                   "differential oracle: observation before vs after the restart; nothing is compared with a hand-written expectation",
                   "flags compared modulo \\Recent and the derived `unseen`; RECENT counts not compared; \\Marked/\\Unmarked ignored in LIST"],
-                 time_budget=170 if tier == "quick" else 900)
+                 time_budget=170 if tier == "quick" else 1200)
 
 
 def replay(rec):
